@@ -131,8 +131,15 @@ def expr(rng, depth, hashable=False):
         parts = keys + vals
         src = "{" + ", ".join(f"{kk[0]}: {vv[0]}" for kk, vv in zip(keys, vals)) + "}"
     elif k in ("set", "frozenset"):
-        mode = rng.choice(["int", "str", "mixed", "any"])
-        if mode == "any":
+        mode = rng.choice(["int", "str", "mixed", "any", "nested"])
+        if mode == "nested":
+            # not mutually orderable, and some elements are sets of strings (whose builtin repr follows the hash seed)
+            n = rng.randint(2, 4)
+            parts = [atom(rng, True, rng.choice(["int", "str"])) for _ in range(n - 1)]
+            for _ in range(rng.randint(1, 2)):
+                letters = rng.sample(["x", "y", "z", "w", "v"], rng.randint(2, 3))
+                parts.append(("frozenset({" + ", ".join(repr(c) for c in letters) + "})", {"frozenset"}))
+        elif mode == "any":
             parts = [expr(rng, depth - 1, True) for _ in range(n)]
         elif mode == "mixed":
             parts = [atom(rng, True, rng.choice(["int", "str"])) for _ in range(n)]
@@ -166,8 +173,10 @@ def gen(rng, tier, shape=None):
     else:
         src, tags = expr(rng, depth)
         vals = [src]
+    has_set = any(t in ("set", "frozenset") for t in tags)
+    p_seeds = (0.5 if has_set else 0.03) if tier == "quick" else (0.6 if has_set else 0.05)
     return {"op": op, "vals": vals, "tags": sorted(tags), "placement": rng.choice(["assert", "helper", "module", "loop"]),
-            "seeds": rng.random() < (0.08 if tier == "quick" else 0.15)}
+            "seeds": rng.random() < p_seeds}
 
 
 OP = {"eq": "{v} == {s}", "le": "{v} <= {s}", "ge": "{v} >= {s}", "in": "{v} in {s}", "getitem": "{v} == {s}['key']"}
@@ -271,8 +280,8 @@ def multi_env(case, src):
         ("seed0", {"PYTHONHASHSEED": "0"}, "", {}),
         ("seed1", {"PYTHONHASHSEED": "1"}, "", {}),
         ("seed4242", {"PYTHONHASHSEED": "4242"}, "", {}),
-        ("noblack", {"PYTHONHASHSEED": "7"}, "", {"stub/black/__init__.py": BLACK_STUB}),
-        ("fmtcmd", {"PYTHONHASHSEED": "9"}, "[tool.inline-snapshot]\nformat-command=\"cat\"\n", {}),
+        ("noblack", {"PYTHONHASHSEED": "0"}, "", {"stub/black/__init__.py": BLACK_STUB}),
+        ("fmtcmd", {"PYTHONHASHSEED": "0"}, "[tool.inline-snapshot]\nformat-command=\"cat\"\n", {}),
     ]:
         files = {"test_case.py": src}
         files.update(extra)
